@@ -7,6 +7,8 @@ i in [0,n) skipping only bara_i = 0, with ping-pong buffers copied back; R4 extr
 negacyclic reversal map; R5 monomial multiplication is the index map (i-a) mod N with sign (-1)^wraps; R6 the test
 vector is mu in all N coefficients; R7 bootstrap = woKS into a private sample of the extracted dimension, then key switch.
 Not decided: output noise; that the external product multiplies (C09).
+R8 the FFT bootstrapping key is a complete conversion: its key-switching key copy has the source key's (n = k*N, t,
+basebit) and every row, and all n bootstrapping rows are converted (sibling agreement with init_LweBootstrappingKey).
 """
 from sa import bounds, summ, sym
 from sa.facts import Program
@@ -81,6 +83,7 @@ def run(chk):
     for v in prog.variants():
         chk.analysed["variants"] = chk.analysed.get("variants", 0) + 1
         evaluate(chk, v, ("_FFT", ""))
+        check_fft_key(chk, v)
         # R4 / R5: shared analyses evaluated here as well (rule ids of this property)
         c14.check_extraction(chk, v, rule="R4")
         c11_chk = _Sub(chk, "R5")
@@ -262,3 +265,85 @@ class _Sub:
 
     def assume(self, *a, **k):
         return self.chk.assume(*a, **k)
+
+
+# ------------------------------------------------------------------------------ R8: the FFT key is a complete conversion
+def _suffix_from_params(t, rec="TGswParams"):
+    """access path of a dimension term below the first object named like a parameter object of type rec:
+    bk->bk_params->tlwe_params->N and bk_params->tlwe_params->N both give ('.tlwe_params', '[*]', '.N')"""
+    path = sym.path_of(t)
+    steps = [s for s in path[1:]]
+    root = path[0]
+    names = [root[1] if root and root[0] == "sym" else None]
+    # cut after the step (or root) called bk_params / params of that record
+    for k, s_ in enumerate(steps):
+        if s_ == ".bk_params":
+            return tuple(x for x in steps[k + 1:] if x != "[*]")
+    if names[0] == "bk_params":
+        return tuple(x for x in steps if x != "[*]")
+    return None
+
+
+def check_fft_key(chk, v):
+    from sa.pipeline import AnalysisBroken
+    vn = v.name
+    f = v.fn("init_LweBootstrappingKeyFFT")
+    g = v.fn("init_LweBootstrappingKey")
+    NO = summ.InlineLib(only=lambda fn: False)
+    ps, _ = summ.pieces(v, f, hooks=NO)
+    gps, _ = summ.pieces(v, g, hooks=NO)
+    bk = sym.sym(f.params[1]["n"])
+    P_ = lambda *fl: _chain(bk, fl)
+    key = "the FFT bootstrapping key carries the whole key-switching key and all n converted rows of the coefficient key"
+    calls = lambda nm: [p for p in ps if p["kind"] == "call" and p["name"] == nm]
+    nk, cp, na, cv = calls("new_LweKeySwitchKey"), calls("lweCopy"), calls("new_TGswSampleFFT_array"), calls("tGswToFFTConvert")
+    gk = [p for p in gps if p["kind"] == "call" and p["name"] == "new_LweKeySwitchKey"]
+    if not (len(nk) == len(cp) == len(na) == len(cv) == 1 and len(gk) == 1 and len(cp[0]["loops"]) == 3 and len(cv[0]["loops"]) == 1):
+        chk.broken("init_LweBootstrappingKeyFFT: shape not recognised (%d/%d/%d/%d calls)" % (len(nk), len(cp), len(na), len(cv)))
+    problems = []
+    a = nk[0]["args"]
+    ksrc = sym.arrow(bk, "ks")
+    want_n = sym.arrow(ksrc, "n")
+    n_ok = a[0] == want_n
+    if not n_ok:
+        s1, s2 = _suffix_from_params(a[0]), _suffix_from_params(gk[0]["args"][0])
+        if s1 is None or s2 is None:
+            chk.broken("init_LweBootstrappingKeyFFT: key-switching dimension %s not comparable with %s" % (sym.show(a[0]), sym.show(gk[0]["args"][0])))
+        n_ok = s1 == s2
+        if not n_ok:
+            problems.append("the copy of the key-switching key is allocated for %s rows-blocks, the coefficient key's was created with %s "
+                            "(= k*N input coefficients): for k > 1 the FFT key switches only part of the extracted sample" % (
+                                sym.show(a[0]), sym.show(gk[0]["args"][0])))
+    if a[1] != sym.arrow(ksrc, "t") or a[2] != sym.arrow(ksrc, "basebit"):
+        problems.append("copy allocated with (t, basebit) = (%s, %s), the source key has (ks->t, ks->basebit)" % (sym.show(a[1]), sym.show(a[2])))
+    il, jl, pl = cp[0]["loops"]
+    rng = [(l["lo"], l["cmp"], l["hi"]) for l in (il, jl, pl)]
+    want_rng = [(ZERO, "<", a[0]), (ZERO, "<", sym.arrow(ksrc, "t")), (ZERO, "<", sym.arrow(ksrc, "base"))]
+    if rng != want_rng:
+        problems.append("row copy runs over %s, the allocated key has %s x t x base rows" % (
+            [(sym.show(x[0]), sym.show(x[2])) for x in rng], sym.show(a[0])))
+    dst, src = cp[0]["args"][0], cp[0]["args"][1]
+    i, j, p_ = il["var"], jl["var"], pl["var"]
+    want_src = sym.addr(sym.idx(sym.idx(sym.idx(sym.arrow(ksrc, "ks"), i), j), p_))
+    want_dst = sym.addr(sym.idx(sym.idx(sym.idx(sym.arrow(nk[0]["eff"]["ret"], "ks"), i), j), p_))
+    if src != want_src or dst != want_dst:
+        problems.append("row copy is %s <- %s, expected ks[i][j][p] <- bk->ks->ks[i][j][p]" % (sym.show(dst)[:60], sym.show(src)[:60]))
+    nin = sym.arrow(sym.arrow(bk, "in_out_params"), "n")
+    if na[0]["args"][0] != nin:
+        problems.append("%s FFT rows allocated, the key has in_out_params->n" % sym.show(na[0]["args"][0]))
+    cl = cv[0]["loops"][0]
+    if (cl["lo"], cl["cmp"], cl["hi"]) != (ZERO, "<", nin):
+        problems.append("conversion loop covers [%s,%s), not [0, n)" % (sym.show(cl["lo"]), sym.show(cl["hi"])))
+    if cv[0]["args"][0] != sym.addr(sym.idx(na[0]["eff"]["ret"], cl["var"])) or cv[0]["args"][1] != sym.addr(sym.idx(sym.arrow(bk, "bk"), cl["var"])):
+        problems.append("conversion is %s <- %s, expected bkFFT[i] <- bk->bk[i]" % (sym.show(cv[0]["args"][0])[:50], sym.show(cv[0]["args"][1])[:50]))
+    chk.require(not problems, "R8", key, where=f.where,
+                ok="new_LweKeySwitchKey(extracted n, ks->t, ks->basebit); rows [0,n_ext) x [0,t) x [0,base) copied index for index; n rows converted",
+                bad="; ".join(problems)[:600], variant=vn)
+    chk.vcount(vn, "R8.fft_key_constructors")
+
+
+def _chain(root, fields):
+    t = root
+    for fl in fields:
+        t = sym.arrow(t, fl)
+    return t
